@@ -132,6 +132,21 @@ CHECKS = {
          "the number of visited nodes beyond depth <= 64.",
     note="Trusted: rustc MIR construction, the fact dumper, the explorer. The embedder's painter is a black box (A-CB).",
  ),
+ "C14": dict(
+    technique="instance-level call-graph reachability from the decoder entry points + interval/relational abstract interpretation of every panic-capable site in that set (no untriaged site allowed), explicit-panic inventory, dominating-guard rule; who-reads query on Hash/PartialEq of IntSet",
+    design_ref="DESIGN.md §9.7 C14",
+    text="Claimed for two structural clauses only. (a) 'decoding arbitrary bytes never panics': in every read-fonts function "
+         "reachable from IntSet::<u32>::from_sparse_bit_set(_bounded) each indexing / slicing / division / Vec::insert site is "
+         "proved safe for every input or carries a confirmed reason (an untriaged site inside the decoder is a violation), "
+         "explicit panics are the confirmed dead arms, the reachable set has no call-graph cycle, and the height rejection "
+         "dominates every decode_sparse_bit_set_nodes call. (b) hash/equality agreement: Hash for IntSet observes the set "
+         "only through member observers (iter_ranges/iter), never the membership mode or the raw pages, and the mixed-mode arm "
+         "of PartialEq::eq compares iter_ranges() of both sides. Not decided: membership, size, ordering and iteration after "
+         "operation histories, the mode-case tables of union/intersect/subtract, RangeSet merging, encode/decode round trip and "
+         "agreement with the specification's decoding algorithm (model equivalence, value level); overflow-checked arithmetic "
+         "inside the decoder is covered by C20's census only as 'no new unproven site'.",
+    note="Trusted: call-graph construction (A-CB), the two confirmed reasons for the decoder's slices (rules/site_reasons.json), the dead-arm reasons in rules/confirmed_panics_read_fonts.json.",
+ ),
  "C18": dict(
     technique="dominating-guard analysis, who-may-call over resolved callees, path-sensitive no-error-exit-after-mutation (T-AFTER), result-fate query",
     design_ref="DESIGN.md §4 C18",
@@ -177,7 +192,6 @@ NOT_APPLICABLE = {
  "C09": "glyf/loca round-trip and shortest-encoding are value-level facts about delta magnitudes and run lengths",
  "C10": "IUP tolerance, run-length packing and scalar computation are numerical; optimiser correctness is a DP invariant over runtime data",
  "C11": "delta-set retrieval after row merging, tent scalars and axis normalisation are arithmetic identities over runtime values",
- "C14": "set algebra over operation histories and codec round-trip are model-equivalence facts; only the decoder's height guard is structural (checked under C02)",
  "C15": "exact rounding/conversion identities over all values; the structural facts (wrapping Add/Sub, derived raw-bit Ord) are checked under C20",
  "C16": "first-match lookup equivalence after splitting depends on index arithmetic at split points (values)",
  "C17": "subset vs original on outlines/metrics/cmap is behavioural equivalence of two fonts",
